@@ -52,6 +52,11 @@ def library():
         add("p-" + tg, (lambda tg: lambda k: ("p", [T(k), ("tag", tg, [T(k)])]))(tg))
     add("p-link", lambda k: ("p", [T(k), ("link", k(), None), T(k)]))
     add("p-link-caption", lambda k: ("p", [("link", k(), [T(k)])]))
+    # content that consists of links WITHOUT a label only (their target is what is displayed)
+    add("p-plainlinks-only", lambda k: ("p", [("link", k(), None), ("link", k(), None)]))
+    add("p-ref-plainlink-only", lambda k: ("p", [T(k), ("ref", [("link", k(), None)])]))
+    add("h3-plainlink", lambda k: ("h", 3, [("link", k(), None)]))
+    add("ul-plainlinks-only", lambda k: ("list", "*", [([("link", k(), None)], None), ([("link", k(), None)], None)]))
     add("p-link-ns", lambda k: ("p", [T(k), ("nslink", "Talk", k(), [T(k)]), ("nslink", "Project", k(), [T(k)]), ("nslink", "Wikipedia", k(), [T(k)])]))
     add("p-link-styled-caption", lambda k: ("p", [("link", k(), [("i", [T(k)])])]))
     add("p-ext-named", lambda k: ("p", [T(k), ("ext", k(), [T(k)])]))
